@@ -98,6 +98,19 @@ func (f *fakeWS) push(q string, n int) {
 	require.NoError(f.t, f.conn.WriteMessage(websocket.TextMessage, []byte(msg)))
 }
 
+// pushQuiet is push without assertions (for streams that run until the connection goes away).
+func (f *fakeWS) pushQuiet(q string, n int) error {
+	ev := coretypes.ResultEvent{Query: q, Events: map[string][]string{"verif.n": {fmt.Sprint(n)}}}
+	res, err := tmjson.Marshal(ev)
+	if err != nil {
+		return err
+	}
+	msg := fmt.Sprintf(`{"jsonrpc":"2.0","id":1,"result":%s}`, res)
+	f.mu.Lock()
+	defer f.mu.Unlock()
+	return f.conn.WriteMessage(websocket.TextMessage, []byte(msg))
+}
+
 func (f *fakeWS) waitCalls(n int) {
 	f.mu.Lock()
 	defer f.mu.Unlock()
